@@ -39,6 +39,21 @@ fn knapsack(r: &mut Rng) -> LinearModel {
     m
 }
 
+/// a knapsack large enough for the search to be stopped MID-WAY (an incumbent exists, optimality unproven), still
+/// small enough for the certified enumeration (2^12..2^13 leaves)
+fn mid_knapsack(r: &mut Rng) -> LinearModel {
+    let n = 12 + r.below(2);
+    let mut m = LinearModel::new();
+    for i in 0..n { m.add_variable(&format!("b{}", i), VariableType::Boolean); }
+    let w: Vec<f64> = (0..n).map(|_| 10.0 + r.below(30) as f64).collect();
+    // strongly correlated values make branch and bound work
+    let v: Vec<f64> = w.iter().map(|x| x + 5.0 + r.below(3) as f64).collect();
+    let cap = (w.iter().sum::<f64>() * 0.45).floor();
+    m.add_named_constraint(w, Comparison::LessOrEqual, cap, "cap");
+    m.set_objective(v, OptimizationType::Max);
+    m
+}
+
 /// the 5-item knapsack of the design-phase probe
 pub fn seeded_knapsack() -> LinearModel {
     let mut m = LinearModel::new();
@@ -118,6 +133,16 @@ pub fn generate(seed: u64, n: usize, _thorough: bool, _corpus: Option<&str>) -> 
             let l = LIMITS[1 + r.below(LIMITS.len() - 1)];
             one(lm, &lms, &base, g, l, fam, fixed, &mut cases);
         }
+    }
+    // searches stopped mid-way
+    for _ in 0..(n / 20).max(2) {
+        let lm = mid_knapsack(&mut r);
+        let lms = sx::lin_model(&lm);
+        let base = child::solve(SolverKind::Milp, &lm, &Opts::default(), TIMEOUT);
+        for l in [Some(20_000u64), Some(100_000), Some(400_000), Some(2_000_000), None] {
+            one(&lm, &lms, &base, gaps[0], l, "mid-search-knapsack", fixed, &mut cases);
+        }
+        one(&lm, &lms, &base, gaps[3], Some(100_000), "mid-search-knapsack", fixed, &mut cases);
     }
     child::shutdown();
     cases
